@@ -243,3 +243,94 @@ def decoders_bounded(spec, vcfg, tier, seed):
         r.wall_s = round(time.time() - t0, 2)
         out.append(r)
     return out
+
+
+# ---------------------------------------------------------------------------------------- per-item constraints
+def _cons_cfgs(tier):
+    return [codes.Cfg("constraint", nm) for nm in ("total", "average", "papr", "papr_tight", "per_antenna")]
+
+
+def _constraint(name):
+    from kaira.constraints.antenna import PerAntennaPowerConstraint
+    from kaira.constraints.power import AveragePowerConstraint, PAPRConstraint, TotalPowerConstraint
+
+    return {"total": lambda: TotalPowerConstraint(2.0), "average": lambda: AveragePowerConstraint(0.5), "papr": lambda: PAPRConstraint(3.0), "papr_tight": lambda: PAPRConstraint(1.5), "per_antenna": lambda: PerAntennaPowerConstraint(uniform_power=1.0)}[name]()
+
+
+@obligation("C20.constraints_bounded", function="kaira/constraints/power.py:TotalPowerConstraint.forward; kaira/constraints/power.py:AveragePowerConstraint.forward; kaira/constraints/power.py:PAPRConstraint.forward; kaira/constraints/antenna.py:PerAntennaPowerConstraint.forward", configs=_cons_cfgs, kind="custom", engine="standin")
+def constraints_bounded(spec, cfg, tier, seed):
+    """batches of 1..6 members with very different power levels, peaky / flat / zero members, real and complex, every permutation for
+    small batches: f(batch)[i] == f(member i alone) (bounded stand-in; the symbolic per-item dependency clauses are in C08)"""
+    import time
+
+    t0 = time.time()
+    name = cfg[1]
+    rng = random.Random(seed * 29 + 11)
+    g = torch.Generator().manual_seed(seed * 31 + 5)
+    fails = {"batch": None, "perm": None, "repeat": None, "frame": None}
+    evals = 0
+    N = 60 if tier == "quick" else 400
+
+    def member(kind, n, cplx):
+        if kind == "gauss":
+            v = torch.randn(n, generator=g, dtype=torch.float64)
+        elif kind == "flat":
+            v = torch.ones(n, dtype=torch.float64) * (1 if rng.random() < 0.5 else -1)
+        elif kind == "peaky":
+            v = torch.full((n,), 0.1, dtype=torch.float64)
+            v[rng.randrange(n)] = 1.0
+        elif kind == "alternating":
+            v = torch.tensor([(-1.0) ** i for i in range(n)], dtype=torch.float64)
+        else:
+            v = torch.zeros(n, dtype=torch.float64)
+        v = v * 10 ** rng.uniform(-2, 2)
+        if cplx:
+            v = torch.complex(v, torch.randn(n, generator=g, dtype=torch.float64) * float(v.abs().mean()))
+        return v
+
+    for trial in range(N):
+        B = rng.randint(1, 6)
+        n = rng.choice([4, 8, 16])
+        cplx = rng.random() < 0.4
+        kinds = [rng.choice(["gauss", "flat", "peaky", "alternating", "gauss", "peaky"] + (["zero"] if name in ("total", "average") else [])) for _ in range(B)]
+        rows = [member(k, n, cplx) for k in kinds]
+        if name == "per_antenna":
+            x = torch.stack([r.reshape(2, n // 2) for r in rows])  # (B, antennas=2, samples)
+        else:
+            x = torch.stack(rows)
+        x0 = x.clone()
+        f = _constraint(name)
+        try:
+            y = f(x)
+        except Exception as ex:  # a layout/dtype the constraint rejects is acceptable (an error, not different values)
+            continue
+        evals += 1
+        if not torch.equal(x, x0):
+            fails["frame"] = fails["frame"] or {"kinds": kinds}
+        singles = torch.stack([_constraint(name)(x0[i : i + 1])[0] for i in range(B)])
+        tol = 1e-6 * max(1.0, float(singles.abs().max()))
+        if y.shape != singles.shape or float((y - singles).abs().max()) > tol:
+            i = int(((y - singles).abs().reshape(B, -1).max(dim=1).values).argmax()) if y.shape == singles.shape else 0
+            fails["batch"] = fails["batch"] or {"kinds": kinds, "complex": cplx, "member": i, "batch_input": x0.tolist() if not cplx else str(x0.tolist())[:600], "batch_result_member": str(y[i].tolist())[:300], "single_result": str(singles[i].tolist())[:300]}
+        if B <= 4:
+            perms = list(itertools.permutations(range(B)))
+        else:
+            perms = [tuple(rng.sample(range(B), B))]
+        for perm in perms[:24]:
+            yp = _constraint(name)(x0[list(perm)])
+            if float((yp - y[list(perm)]).abs().max()) > tol:
+                fails["perm"] = fails["perm"] or {"kinds": kinds, "perm": list(perm)}
+                break
+        if float((f(x0) - y).abs().max()) > tol:
+            fails["repeat"] = fails["repeat"] or {"kinds": kinds}
+    out = []
+    for key, nm in (("batch", "batch_equals_stack_of_singles"), ("perm", "position_independent"), ("repeat", "repeated_call_identical"), ("frame", "input_unmodified")):
+        r = ObResult(prop="C20", ob=f"{spec.id}/{nm}", config=str(cfg), function=spec.function, engine="standin", backend="native", kind="bounded")
+        r.verdict = "discharged" if fails[key] is None else "refuted"
+        r.witness = fails[key]
+        r.replay_confirmed = None if fails[key] is None else True
+        r.paths = evals
+        r.detail = f"bounded: {evals} seeded random batches (1..6 members; gaussian / flat / peaky / alternating / zero members at scales 1e-2..1e2; real and complex), all permutations for B <= 4"
+        r.wall_s = round(time.time() - t0, 2)
+        out.append(r)
+    return out
